@@ -441,6 +441,11 @@ func runC07(c *core.Ctx) {
 	ruleNoPanicInDecoders(c, d)
 	c.Doc("C07.parsers", "parser node builders: parallel slices indexed together have checked equal lengths; unchecked assertions confined to today's sites", 3)
 	ruleParserShapes(c)
+	ruleIndexResultChecked(c, "C07.parsers", "meta/idl", "meta/signature")
+	c.Doc("C07.index", "a string or byte slice read from the input is indexed with a constant only after its length was tested", 1)
+	ruleWireStringIndex(c, d, "C07.index")
+	c.Doc("C07.shared-state", "decoders keep no shared map that is written with only a read lock held (a decoder that aborts the process is not total)", 1)
+	ruleSharedMapWritesExclusive(c, core.NewLockCache(), "C07.shared-state", "meta/signature", "type/value", "type/encoding", "type/basic", "type/object", "bus/net")
 	c.Doc("C07.nil-on-error", "a value returned next to a decoding error is not dereferenced on the paths where the error is set (it is nil there: the use panics)", 1)
 	ruleNilOnError(c, d, "C07.nil-on-error")
 	c.Doc("C07.backtracking", "no two alternatives of an ordered choice share a prefix containing a non-terminal (re-parsed per alternative at every nesting level: exponential time)", 2)
